@@ -107,6 +107,13 @@ func matchKnown(known map[string]string, sig string) (string, bool) {
 		if strings.HasSuffix(k, "*") && strings.HasPrefix(sig, strings.TrimSuffix(k, "*")) {
 			return k, true
 		}
+		// one inner '*': fixed prefix and fixed suffix
+		if i := strings.Index(k, "*"); i >= 0 && i < len(k)-1 && strings.Count(k, "*") == 1 {
+			pre, suf := k[:i], k[i+1:]
+			if len(sig) >= len(pre)+len(suf) && strings.HasPrefix(sig, pre) && strings.HasSuffix(sig, suf) {
+				return k, true
+			}
+		}
 	}
 	return "", false
 }
